@@ -736,6 +736,8 @@ def check_C07(chk):
     chk.borrow(lambda: (c15a(chk), c15d(chk)), "C07.i", 20)
     import rules_view as RV7_
     chk.borrow_check(RV7_.check_C13, {"C13.a", "C13.b"}, "C07.j", 10)
+    # .. and the text reader takes every value of the body it is given (C16.d)
+    chk.borrow(lambda: c16d(chk), "C07.k", 2)
     for r, n in (("C07.a", 3), ("C07.b", 5), ("C07.c", 5), ("C07.d", 4), ("C07.e", 5), ("C07.f", 6), ("C07.g", 2)):
         chk.floor(r, n)
 
@@ -951,6 +953,13 @@ def c07c(chk):
     splits = [callee_name(t["callee"]) for b, t in ps.calls()] if ps is not None else []
     ok = vsep is not None and len(vsep) >= 1 and all(c in " \t\n\r\x0c" for c in vsep) and "core::str::<impl str>::split_ascii_whitespace" in splits
     chk.ob("C07.c", "text-value-separator/ascii-whitespace", ok, ws.loc() if ws else "", "values are joined with %r and split with split_ascii_whitespace" % vsep)
+    # the separator stands between *every* two values only if the formatter that places it sees all of them at once: one call, outside any
+    # loop (formatting the slice piecewise and writing the pieces back to back glues the last value of a piece to the first of the next)
+    if ws is not None and prog.fn(TEXT + "format_spectrum") is not None and prog.fn(TEXT + "format_spectrum") is not ws:
+        fc_ = an.calls(ws, TEXT + "format_spectrum")
+        looped_ = [ws.loc(b) for b, t in fc_ if ws.reaches(b, b)]
+        chk.ob("C07.c", "text-values/formatted-in-one-piece", len(fc_) == 1 and not looped_, ws.loc(),
+               "write_spectrum formats all values with one call of the formatter, outside any loop (calls: %d, inside a loop: %s)" % (len(fc_), looped_ or "none"))
     # newline after header and body: writeln!
     nl = 0
     for path in (TEXT + "Header::write", TEXT + "write_spectrum"):
@@ -971,6 +980,13 @@ def c07c(chk):
             fcs = [x for x in fcs if x[2] and x[2][0]["precision"] is not None]
         shape_ok = all(len(phs) == 1 and phs[0]["precision"] is not None and phs[0]["precision"][1] for b, p, phs, t in fcs) and all(p == ["", ""] for b, p, phs, t in fcs)
         ok = len(fcs) == 2 and shape_ok
+        if ok and prog.fn(TEXT + "write_spectrum") is fsn:
+            # merged (or inlined by canon.py) into write_spectrum: the value that goes without a separator in front is formatted once - its
+            # site lies outside every loop of the function (formatting piece by piece puts a separator-less value at the head of every piece)
+            direct_ = [b for b, p, phs, t in an.format_calls(fsn) if phs and phs[0]["precision"] is not None]
+            once_ = [b for b in direct_ if not fsn.reaches(b, b)]
+            chk.ob("C07.c", "text-values/formatted-in-one-piece", bool(once_), fsn.loc(),
+                   "the separator-less first value is formatted outside any loop of write_spectrum (precision sites in the function: %d, outside loops: %d)" % (len(direct_), len(once_)))
         if len(fcs) == 1 and shape_ok:
             # one site for all values: a loop over the whole slice that formats its element on every turn (the separator goes in between)
             ok = _single_format_site_covers_all(prog, fsn, fcs[0][0])
